@@ -261,6 +261,8 @@ def solve_one(job):
         res["backends"][name] = dict(result=r, seconds=round(dt, 3), **kw)
 
     r, dt, model, reason = _check_z3(smt2, 3000, seed)
+    if r == "sat" and "String" in smt2:
+        r = _validated(smt2, r)   # string + quantifier models are only believed after validation
     note("z3-5.1", r, dt, reason=reason)
     final = r
     if r == "sat":
